@@ -6,11 +6,11 @@ PROP = {
              "values (0, 1, max, max-1, 2^(w-1), min, -1, every VarUInteger byte length at both ends) and random values; (2) the 24 core "
              "block.tlb structures (MsgAddress, Grams, VarUInteger16, ExtraCurrencyCollection, CurrencyCollection, CommonMsgInfo, "
              "TickTock, SimpleLib, StateInit, Message, AccountStatus, AccStatusChange, ComputeSkipReason, HASH_UPDATE, StorageUsedShort, "
-             "the five transaction phases, SplitMergeInfo, TransactionDescr, Transaction, signed wallet body) over 40 (800 thorough) "
+             "the five transaction phases, SplitMergeInfo, TransactionDescr, Transaction, signed wallet body; and IntermediateAddress, MsgMetadata, MsgEnvelope v1/v2, InMsg (9 constructors), OutMsg (10), EnqueuedMsg, the account layer AccountState/AccountStorage/StorageInfo/StorageExtraInfo/Account/ShardAccount/DepthBalanceInfo, ExtBlkRef, BlkMasterInfo, ShardIdent, BlockIdExt, GlobalVersion, ImportFees, ShardFeeCreated, KeyExtBlkRef, KeyMaxLt, ValidatorInfo, ValidatorBaseInfo, Counters, CreatorStats, ProcessedUpto, IhrPendingSince, SigPubKey, CryptoSignatureSimple, ValidatorDescr, ValidatorTempKey, Certificate, StoragePrices, MsgForwardPrices, ParamLimits, BlockLimits, BlockCreateFees, ComplaintPricing, WorkchainFormat0/1, WcSplitMergeTimings, PrecompiledSmc, CatchainConfig) over 40 (800 thorough) "
              "random values each; (2b) the cursor family: the same structures that hold a bit string or a cell (MsgAddress, CommonMsgInfo, "
              "Message: 120 values; StateInit, SimpleLib, Transaction, TransactionDescr, signed body: 25) after the read cursors inside "
              "the Go value were advanced by 1/3/8/9/64/511 bits (a value that was decoded and inspected before being re-encoded): "
-             "the cell must still be the schema serialisation and equal the cell of the fresh value; (2c) exotic cells through boc.Cell positions (implementation only, counted under exotic|kinds|outcome): for every described type with a ^Cell / Ref[Cell] / Maybe[Ref[Cell]] / Any position (60 values for StateInit, Message, SimpleLib, Account, VmStackValue, 4 for the others; x10 thorough) the cells at the ENCODED positions are replaced by library cells (8+256 bits), pruned branches (masks 1..7), Merkle proofs and Merkle updates with consistent children (boc.VerifSetTypeMask), Any values get 1-2 exotic references: every planted cell must occur in the tree tlb.Marshal produces with its hash, cell type and level mask (C03_cell_passthrough on the model side), and, unless a pruned branch is involved (the decoder leaves those empty by design), decode -> encode reproduces the root hash; 40 state-inits built as on chain with library-cell code: decode -> encode reproduces the source hash (keys exotic-passthrough-<Type>, stateinit-exotic-reencode); (3) ton.CreateExternalMessage envelopes (workchains 0/-1/random, with and without state-init, random "
+             "the cell must still be the schema serialisation and equal the cell of the fresh value; (2c) exotic cells through boc.Cell positions (implementation only, counted under exotic|kinds|outcome): for every described type with a ^Cell / Ref[Cell] / Maybe[Ref[Cell]] / Any position (60 values for StateInit, Message, SimpleLib, Account, VmStackValue, 4 for the others; x10 thorough) the cells at the ENCODED positions are replaced by library cells (8+256 bits), pruned branches (masks 1..7), Merkle proofs and Merkle updates with consistent children (boc.VerifSetTypeMask), Any values get 1-2 exotic references: every planted cell must occur in the tree tlb.Marshal produces with its hash, cell type and level mask (C03_cell_passthrough on the model side), and, unless a pruned branch is involved (the decoder leaves those empty by design), decode -> encode reproduces the root hash under EVERY decoder configuration (tlb.Unmarshal, NewDecoder(), NewDecoder().WithLibraryResolver(fn) and a zero Decoder with a resolver - fn returns an ordinary cell -, WithDebug()); 40 state-inits built as on chain with library-cell code: decode -> encode reproduces the source hash (keys exotic-passthrough-<Type>, stateinit-exotic-reencode); (3) ton.CreateExternalMessage envelopes (workchains 0/-1/random, with and without state-init, random "
              "bodies and fees); (4) every message and transaction of the five testdata blocks (re-encoded hash = source hash on the "
              "implementation; transactions modulo the out_msgs dictionary cell). Per case the cell tlb.Marshal produces is compared "
              "with the model's cell, and the model reports whether the descriptor refines the block.tlb transcription and whether its "
@@ -23,9 +23,10 @@ PROP = {
                     "(C04_encode_is_schema), hence re-encoding a decoded value reproduces the cell whenever the cell is the schema "
                     "serialisation; n-bit big-endian numerals, two's complement, minimal VarUInteger length and the #<= width are "
                     "characterised for all widths; the CreateExternalMessage envelope is given bit by bit. coq/Properties/C04_gen.v "
-                    "evaluates refines on the descriptors regenerated from today's Go struct definitions for the 24 core types."),
+                    "evaluates refines on the descriptors regenerated from today's Go struct definitions for 69 types (24 core + 45 envelope / in-out message / account / block / configuration records), prints the tlb struct/union types that still have NO schema obligation (69 today: the 41 ConfigParamN wrappers and 28 others - exactly where a symmetric edit would be invisible) and bounds that list; C04_library_resolver_scope: a library resolver configured on the decoder can only change typed positions, raw-cell and Any positions keep the library cell."),
     'assumptions': ["the transcriptions in Spec/BlockTlb.v and the schema semantics in Spec/TlbSchema.v are hand-written from the TON documents (trusted specification)",
                     "HashmapE n X is specified only as hme_empty$0 | hme_root$1 ^Cell; the dictionary body (and its label forms: the library never writes hml_same, chain data uses the shortest form, so a re-encoded non-empty dictionary cell can differ from the source) is property C05",
+                    "OutMsg msg_export_deq_short: block.tlb declares next_workchain:int32, the library holds the same 32 bits in a uint32 (workchain -1 reads as 4294967295); the transcription uses the unsigned reading; storage_extra_info dict_hash:uint256 is held as 32 bytes",
                     "prepare_transaction:^Transaction inside TransactionDescr is carried as an uninterpreted cell, as the Go type does",
                     "wallet v3/v4/v5/highload message bodies (hand-written PayloadV1toV4 / PayloadHighload / W5Actions codecs) have no descriptor yet and are not covered here; only the signed wrapper (signature:bits512 + payload) is",
                     "re-encoding reproduces the source cell only where TL-B admits one serialisation: non-minimal VarUInteger lengths and dictionary label forms are outside (C04_reencode_reproduces_cell has the schema serialisation as a premise)",
